@@ -178,6 +178,49 @@ def run(ctx, R):
                     "output source %s is read by %s but not by %s: rows and declared outputs disagree for empty folds"
                     % (t, "the indexer" if t in fi else "the engine", "the engine" if t in fi else "the indexer"))
     suspension_table(ctx, R)
+    missing_nested_value(ctx, R)
+
+
+def missing_nested_value(ctx, R):
+    """r7: when an outer @fold gathers, per element, the value of a fold nested deeper (or of an output under an @optional inside
+    it), an element for which that value does not exist (its @optional was not taken) contributes null - that is what makes the
+    declared type `[T]` (nullable element) right. The expression compute_fold pushes for each element is evaluated with the
+    element's value absent and present: absent -> ValueOrVec::Value(FieldValue::Null), present -> the value itself."""
+    C = ctx.core
+    R.rule("r7", "compute_fold: an element without a nested value contributes null, an element with one contributes it unchanged")
+    f = C.fn("trustfall_core::interpreter::execution::compute_fold")
+    if f is None:
+        R.fail("r7", "anchor", "-", "compute_fold not found")
+        return
+    VOV = "trustfall_core::interpreter::ValueOrVec"
+    FVp = "trustfall_core::ir::value::FieldValue"
+    sites = []
+    for n in walk(f["body"]):
+        if n.get("k") == "mcall" and n.get("name") == "push" and n.get("args") and "folded_values" in ekey(n["recv"]):
+            arg = n["args"][0]
+            opt = [x for x in walk(arg) if x.get("k") == "local" and (C.S(x.get("ty")) or "").startswith("core::option::Option<" + VOV)]
+            if opt:
+                sites.append((n, arg, opt[0]))
+    R.floor("r7", "sites gathering an optional nested value", len(sites), 1)
+    I = S.intrinsics()
+    I["const:" + FVp + "::NULL"] = lambda ip, n, a: A.Enum(FVp, "Null")
+    for n, arg, loc in sites:
+        try:
+            absent = A.deref(A.Interp(C, I).ev(arg, {loc["bid"]: A.Cell(S.none())}))
+            present = A.deref(A.Interp(C, I).ev(arg, {loc["bid"]: A.Cell(S.some(A.Sym("nested-value")))}))
+        except A.Unsupported as e:
+            R.fail("r7", "unanalysable", C.loc(n["sp"]), "cannot evaluate the gathered expression: %s (fail closed)" % e)
+            continue
+        except A.PanicReached as e:
+            R.fail("r7", "panic", C.loc(n["sp"]), "gathering a missing nested value panics: %s" % e.what)
+            continue
+        is_null = isinstance(absent, A.Enum) and absent.variant == "Value" and absent.fields and \
+            isinstance(A.deref(absent.fields[0]), A.Enum) and A.deref(absent.fields[0]).variant == "Null"
+        same = isinstance(present, A.Sym) and present.name == "nested-value"
+        R.check(is_null and same, "r7", "missing-nested-value-is-null", C.loc(n["sp"]),
+                "compute_fold gathers %r for an element whose nested value does not exist (and %r for one that has it): the declared output "
+                "type has a nullable element there (`[T]`), and an empty list instead of null also turns a declared `[Int]!` count list "
+                "into a list of lists" % (absent, present))
 
 
 def suspension_table(ctx, R):
